@@ -4,6 +4,8 @@
 # baseline suite, confirms the demonstration fails with it and passes without it, runs the given
 # checks (quick; thorough for the target if quick stays silent), and restores /repo.
 set -u
+# checks of modified trees write their evidence to a scratch directory
+export PVX_EVIDENCE_DIR=${PVX_EVIDENCE_DIR:-/tmp/pvx-evidence}; mkdir -p "$PVX_EVIDENCE_DIR"
 PATCH=$(readlink -f "$1"); DEMO="$2"; [ "$DEMO" != "-" ] && DEMO=$(readlink -f "$DEMO"); shift 2
 PROPS="$@"
 cd /repo || exit 2
